@@ -215,7 +215,8 @@ def dateline_gridder(h_deg=0.01, ncell=4):
         west = (np.pi - ks * h)[::-1]
         lon_lines = np.concatenate([east, west])
         lat_lines = np.arange(-PAD, 2 + PAD + 1) * h
-        _g[key] = (gridder_mod().Gridder(lat_lines, lon_lines), h)
+        ks2 = np.arange(-PAD, 2 + PAD + 1)
+        _g[key] = (gridder_mod().Gridder(lat_lines, lon_lines, (ks2 + PAD) * 1000.0, (ks2 + PAD) * 600.0), h)
     return _g[key]
 
 
@@ -234,13 +235,22 @@ def run_dateline(case):
         lons = np.array([lon_of(case['xs']), lon_of(case['xe'])])
         lats = np.array([lat(c['ys']), lat(c['ye'])])
         devs = []
+        alts = (np.array([c['as'], 3]) / Q + PAD) * 1000.0
+        times = (np.array([c['ts'], 5]) / Q + PAD) * 600.0
         try:
-            tl, to, _, _, sv, iv = g.grid_trajectory(lats, lons, state_variables=(np.array([7.0, 9.0]),), integrated_variables=(np.array([VALUE]),))
+            tl, to, ta, tt, sv, iv = g.grid_trajectory(lats, lons, alts, times, state_variables=(np.array([7.0, 9.0]),), integrated_variables=(np.array([VALUE]),))
         except Exception as e:
             return [('C05', f'dateline-raised-{type(e).__name__}', f'antimeridian case {c}: raised {type(e).__name__}: {e}')]
         n = len(tl)
-        if not (len(to) == n and len(sv[0]) == n and len(iv[0]) == n):
+        if not (len(to) == n and len(sv[0]) == n and len(iv[0]) == n and len(ta) == n and len(tt) == n):
             return [('C05', 'misaligned-lengths', f'antimeridian case {c}: output lengths differ')]
+        live = [i for i in range(n) if abs(float(iv[0][i])) > 1e-9 * VALUE]
+        ac = {int(round(ta[i] / 1000.0)) - PAD for i in live}
+        tc = {int(round(tt[i] / 600.0)) - PAD for i in live}
+        if ac - {case['acell']} or tc - {case['tcell']}:
+            devs.append(('C05', 'dateline-altitude-or-time-cell', f'antimeridian case {c}: pieces carry altitude cells {sorted(ac)} and time cells {sorted(tc)}; specification: those of the start point ({case["acell"]}, {case["tcell"]})'))
+        if any(float(sv[0][i]) != 7.0 for i in live):
+            devs.append(('C05', 'dateline-state-not-from-start-point', f'antimeridian case {c}: state values {sorted(set(np.asarray(sv[0]).tolist()))}; specification: 7.0'))
         total = float(np.sum(iv[0])) / VALUE
         if not (1 - 1e-9 <= total <= 1 + 1e-6):
             devs.append(('C04', 'dateline-not-conserved', f'antimeridian case {c}: pieces add up to {total:.9f} of the segment value'))
@@ -279,7 +289,7 @@ def run_grid(ctx: Ctx, pid: str):
         'segments = every ordered pair of points of the quarter-cell lattice (9x9 quick: 6 561; 13x13 thorough: 28 561) incl. points on lines/corners, '
         'axis-parallel, diagonal, westward/southward and zero-length segments, on the equatorial 0.01-degree grid (exact shares) and on 1- and 5-degree grids at '
         'latitudes up to 60 degrees (cells, order, conservation band); multi-segment trajectories with altitude/time axes and state variables by seeded TLC random walks; '
-        'all antimeridian dog-leg placements (2 592); non-trivial = segment crosses at least one grid line or is degenerate'
+        'all antimeridian dog-leg placements x start altitude/time cells (10 368); non-trivial = segment crosses at least one grid line or is degenerate'
     )
     ctx.assumptions += [
         'shares below 1e-9 of the segment value and neighbouring pieces in the same cell are merged before comparison',
